@@ -114,6 +114,25 @@ def run(ctx):
                 i_ = int(np.argmax(np.abs(rl_ - (deep.mean_density0 - rg_))))
                 viol("massfunction/rho_ltm-identity/overshoot", f"{fit_} (sigma_8={kw_['sigma_8']}, Mmin={kw_['Mmin']}): rho_ltm = {rl_[i_]:.6g} but mean_density0 - rho_gtm = {deep.mean_density0 - rg_[i_]:.6g} at m=10^{np.log10(deep.m[i_]):.1f} (rho_gtm/mean_density0 = {rg_[i_] / deep.mean_density0:.4f})",
                      {"hmf_model": fit_, **kw_})
+        # high redshift, where dn/dm underflows to zero at the top of the grid: the cumulative quantities stay finite, non-negative and
+        # non-increasing whichever of them (or of the quantities derived from them) is read first, and reading one does not alter another
+        for zhi in (20.0, 30.0):
+            for first in ("how_big", "rho_ltm", "ngtm"):
+                try:
+                    hz = MassFunction(hmf_model="SMT", z=zhi, Mmin=10.0, Mmax=15.0, dlog10m=0.1, **base)
+                    with np.errstate(all="ignore"):
+                        getattr(hz, first)
+                        nz, rz = np.array(hz.ngtm), np.array(hz.rho_gtm)
+                        hb = np.array(hz.how_big)
+                except Exception:
+                    continue
+                nmf += 1
+                if not (np.all(np.isfinite(nz)) and np.all(nz >= 0) and np.all(np.diff(nz) <= 0) and np.all(np.isfinite(rz)) and np.all(rz >= 0) and np.all(np.diff(rz) <= 0)):
+                    viol("massfunction/sign-monotone/high-z", f"SMT z={zhi}, {first} read first: ngtm/rho_gtm not finite, negative or increasing (ngtm[-3:]={nz[-3:].tolist()})", {"z": zhi, "first": first})
+                with np.errstate(all="ignore"):
+                    want_hb = (0.366362 / nz) ** (1 / 3)
+                if not np.allclose(hb, want_hb, rtol=1e-13, equal_nan=False):
+                    viol("massfunction/how_big/high-z", f"SMT z={zhi}, {first} read first: how_big != (0.366362/ngtm)^(1/3) (infinite where ngtm = 0)", {"z": zhi, "first": first})
         for fit in (["Tinker08", "SMT", "Warren"] if quick else ["Tinker08", "SMT", "Warren", "PS", "Jenkins", "Watson", "Tinker10", "Bhattacharya"]):
             for z in (0.0, 2.0):
                 ref = MassFunction(hmf_model=fit, z=z, Mmin=10.0, Mmax=15.0, dlog10m=0.1, **base)
